@@ -2,12 +2,14 @@ import Std.Data.HashMap
 import PV.Model.FloatArith
 import PV.Generated.Score
 import PV.Model.SCC
+import PV.Model.Tarjan
 import PV.Model.Grouping
 import PV.Model.TED
 import PV.Model.Gate
 import PV.Model.CFG
 import PV.Model.Summary
 import PV.Model.PySem
+import PV.Proofs.CFGSound3
 import PV.Model.StructDead
 import PV.Model.Decisions
 import PV.Model.Registry
@@ -66,6 +68,22 @@ def runScc (t : Array String) : String :=
     let cyc := joinWith ";" (cs.map fun c => joinWith "," (c.map toString))
     s!"{cyc}|{joinWith "," st.severities}|{st.totalCycles}|{st.modulesInCycles}"
 
+/-- `tarjan n u v …`: the LITERAL mirror of pyscn's Tarjan pass (PV.Tarjan.goRun, proved correct in PV/Proofs/TarjanCorrect.lean):
+components in emission order | index of every vertex | final low-link of every vertex | fuel flag -/
+def runTarjan (t : Array String) : String :=
+  if t.size < 1 then "bad-op" else
+  let n := (tokI t[0]!).toNat
+  let rec pairs (i : Nat) (fuel : Nat) (acc : List (Nat × Nat)) : List (Nat × Nat) :=
+    match fuel with
+    | 0 => acc.reverse
+    | f + 1 => if i + 1 < t.size then pairs (i + 2) f (((tokI t[i]!).toNat, (tokI t[i+1]!).toNat) :: acc) else acc.reverse
+  let g : PV.SCC.G := { n := n, edges := pairs 1 t.size [] }
+  let s := PV.Tarjan.goRun g
+  let comps := joinWith ";" (s.components.map fun c => joinWith "," (c.map toString))
+  let ind := joinWith "," ((List.range n).map fun v => toString ((s.idx v).getD 0))
+  let low := joinWith "," ((List.range n).map fun v => toString (s.low v))
+  s!"{comps}|{ind}|{low}|{if s.ok then 1 else 0}"
+
 def showGroups (gs : List (List Nat)) : String :=
   joinWith ";" (gs.map fun c => joinWith "," (c.map toString))
 
@@ -103,6 +121,7 @@ def runGroup (t : Array String) : String :=
     | some gs => s!"{showGroups gs}|{b common}|{b (PV.Grouping.checkKCore θ k ps impl)}"
   | "complete_linkage" => s!"-|{b common}|{b (PV.Grouping.checkComplete θ ps impl)}"
   | "star" => s!"-|{b common}|{b (PV.Grouping.checkStar θ ps impl)}"
+  | "centroid" => s!"-|{b common}|{b (PV.Grouping.checkLinked n θ ps impl)}"
   | _ => "bad-op"
 
 /-- parse a preorder (label arity)* token stream into a tree; returns the tree and the next position -/
@@ -254,7 +273,8 @@ def runLive (t : Array String) : String :=
   let r := PV.Py.live body
   let o := r.outs
   let b (x : Bool) : String := if x then "1" else "0"
-  s!"{natsSorted r.lines.eraseDups}|{b o.normal}{b o.ret}{b o.brk}{b o.cont}{b o.exc}"
+  -- last two fields: is the body inside the fragment of the mirror-soundness theorems (C01_mirror_sound_notry / C01_mirror_sound)?
+  s!"{natsSorted r.lines.eraseDups}|{b o.normal}{b o.ret}{b o.brk}{b o.cont}{b o.exc}|{b (PV.CFGSound.okL false body)}|{b (PV.CFGSound.okL3 false false body)}"
 
 /-- `sdead <f|c|m> s e <list>` → the lines that must be reported: start lines of all statements inside structurally dead statements (specification of C02) -/
 def runSDead (t : Array String) : String :=
@@ -486,6 +506,7 @@ def step (line : String) : String :=
     match cmd with
     | "score" => runScore t
     | "scc" => runScc t
+    | "tarjan" => runTarjan t
     | "group" => runGroup t
     | "ted" => runTed t
     | "gate" => runGate t
